@@ -156,15 +156,18 @@ CHECKS = {
  "C07": {
   "category": "proof",
   "text": "VFile.v models vorbisfile's position bookkeeping (link table, fetch/process, reads, raw/page/sample seeks) on the page table, with the decoder "
-          "automaton of Blocking.v underneath. Proved: each read's consuming step advances the position by exactly the count returned and touches nothing else; and truthfulness of linear "
-          "reading at full rate: from any synchronised handle (reported position = position of the next sample in the link, decoder tracking agrees), after ANY "
-          "number of intact packets of the link - with or without granule positions - each packet delivers exactly its block step, the reported position advances "
-          "by exactly the samples delivered and the handle is synchronised again (Sync_lemmas.v, by induction over the packet list). NOT a theorem: that every seek "
-          "re-establishes the synchronisation invariant, half-rate, end-of-stream trim; these are checked per run by replaying random seek/read histories on chained "
-          "files against the model (return code, positions, state, link) and by comparing every read bit for bit with an independent packet-level decode at the "
-          "reported position.",
+          "automaton of Blocking.v underneath. Proved: (1) each read's consuming step advances the position by exactly the count returned and touches nothing else; (2) linear reading at "
+          "full rate from any synchronised handle stays truthful over ANY number of intact packets, whatever the page layout (Sync_lemmas.v); (3) ov_pcm_seek at full rate "
+          "from ANY opened handle: when the page seek succeeds without the continued-packet fallback and the packets from the landing point form an intact run of "
+          "the link reaching the target, it returns 0, reports EXACTLY the target and leaves a truthful state - quiet decoder whose next packet ends at the reported "
+          "position, or pending samples that are the samples at the reported position (Seek_lemmas.v: invariants of the packet-discarding and the sample-discarding "
+          "loop by induction, the landing facts of ov_pcm_seek_page derived, hypotheses packaged as the executable test seek_hyps). The per-run check evaluates "
+          "seek_hyps in the extracted model for every sample seek it performs (it held for 30-55 % of them) and demands success and position = target from the "
+          "real code there. NOT theorems: raw seeks and page-granularity seeks' landing positions, the continued-packet fallback, seeks finishing inside the last "
+          "page (end-of-stream trim), half-rate; these are checked per run by replaying random seek/read histories on chained files against the model (return "
+          "code, positions, state, link) and by comparing every read bit for bit with an independent packet-level decode at the reported position.",
   "note": VF_NOTE,
-  "technique": "Coq model + partial proof (consuming step; linear-read synchronisation invariant); step-by-step correspondence of extracted model vs lib/vorbisfile.c; bit-exact position oracle",
+  "technique": "Coq model + partial proof (consuming step; linear-read synchronisation invariant; sample seek exact and truthful on intact runs); step-by-step correspondence of extracted model vs lib/vorbisfile.c; bit-exact position oracle",
  },
  "C08": {
   "category": "proof",
